@@ -183,6 +183,16 @@ def r4(ctx):
         ctx.check(ok, "C11.R4", ch, "reply only for the supported protocol version", witness=conds, line=c.lineno)
         in_loop = any(isinstance(p, (ast.For, ast.While)) for p in _parents(c, ch.node))
         ctx.check(not in_loop, "C11.R4", ch, "one reply per hello", line=c.lineno)
+        # ... and the one reply is transmitted once: a message queued with a retry mode is sent again every resend interval /
+        # message timeout until it is acknowledged, and a spoofed source never acknowledges
+        st = ctx.fn("connection:ConnectionBase._send_type")
+        pos = st.params.index("retry") - 1 if "retry" in st.params else None
+        rv = None
+        if pos is not None:
+            arg = c.args[pos] if pos < len(c.args) else next((k.value for k in c.keywords if k.arg == "retry"), None)
+            rv = ctx.folder.fold(arg, ch.module, cls=ch.cls) if arg is not None else None
+        ctx.check(isinstance(rv, EnumVal) and rv.member == "NONE", "C11.R4", ch, "the SERVER_HELLO is queued with RetryMode.NONE (never retransmitted to an address that has not answered)",
+                  "every retransmission is more bytes to an unverified address", witness=repr(rv), line=c.lineno)
     # type confusion: which package messages expose client_version and client_pubkey
     fields = _serializable_fields(ctx)
     imp = sorted(q for q, f in fields.items() if {"client_version", "client_pubkey"} <= f)
